@@ -43,7 +43,8 @@ def seg(rng, cls, ivals, fvals):
         return "C%s,S,%s" % (h(sp), h(rng.choice(STRS)))
     if cls == "ptr": return "C%s,P,1" % h("%p")
     if cls == "show":
-        k = rng.choice("IFSNY")
+        k = rng.choice("IFSNYIFSZ")
+        if k == "Z": return "WZ,0"                                   # NULL: shown as <NULL>
         if k == "Y": return "WY,%s" % rng.choice(["Int", "Float", "String", "Array", "Table", "Tuple", "Type", "File", "Function"])     # a Type object
         if k == "N": return "WN,%d" % rng.randint(-9, 99)          # a type without a Show instance (generic fallback text)
         return "W%s,%s" % (k, str(rng.choice(ivals)) if k == "I" else ("%016x" % rng.choice(fvals)) if k == "F" else h(rng.choice(STRS)))
